@@ -128,6 +128,15 @@ impl Prop for C05 {
                 v.push(Case { conv });
             }
         }
+        // a user-defined value type that flushes the writer it is handed (first cell of text rows):
+        // nothing is buffered at that point, so the flush must not disturb the numbering
+        for seq in [0u8, 9, 254] {
+            let rows: Vec<RowProg> = (0..3).map(|r| RowProg { cells: vec![Val::plain(Base::FlushThenI32(r)), Val::plain(Base::I32(7))], form: RowForm::Cols }).collect();
+            let prog = Program { steps: vec![Step::Set { cols: vec![ColSpec::simple("a", T_LONG, 0), ColSpec::simple("b", T_LONG, 0)], rows, end: SetEnd::Finish }] };
+            let mut conv = Conversation::new(vec![Cmd::Query { text: Blob::text("flushy") }, Cmd::Ping], vec![Action::Result(prog)]);
+            conv.cmds[0].seq = seq;
+            v.push(Case { conv });
+        }
         // responses that contain a message of 2^24-1 bytes or more: the continuation packets
         // must keep counting (a text row: 1 + lenenc(3/4 bytes) + cell)
         let cells: &[usize] = match tier {
